@@ -10,3 +10,4 @@ open Cache
 #print axioms C12_model_eviction_in_order
 #print axioms C12_evict_frame
 #print axioms C12_metric_tracks_history
+#print axioms C12_oracle_is_the_model
